@@ -81,6 +81,8 @@ def common_spec(rng, tier, controls=True, limits=False):
             t['init_level'] = gnet._round(t['min_level'] + rng.uniform(0.35, 0.65) * span, 3)
     o = spec['options']
     o['pattern_interpolation'] = False      # a WNTRSimulator-only option, not a common feature
+    for t_ in spec['tanks']:
+        t_['overflow'] = False                # EPANET lets such a tank spill, WNTR closes its inlets: not a common feature
     # side stream (content-seeded, the main stream stays what it was): start clock times in the noon and midnight hours, and
     # controls / rules on the time of day that the run passes
     import json as _json
@@ -777,6 +779,8 @@ def rig_spec(rng):
     for t in spec['tanks']:
         t['diameter'] = 30.0
     o['pattern_interpolation'] = False      # a WNTRSimulator-only option, not a common feature (see common_spec)
+    for t_ in spec['tanks']:
+        t_['overflow'] = False
     ctrlgen.add_random_controls(spec, rng, n=(1, 1), kinds=('rule_setting', 'rule_setting', 'setting'), offgrid=0.3)     # one source of setting changes per valve: equal-priority conflicts are undefined
     return spec
 
